@@ -236,8 +236,10 @@ def c10(fails, stats, tier):
         [(r'dtn://a/b.*', 'forward'), (r'dtn://a/.*', 'delete'), (r'.*', 'deliver')],
         [(r'dtn://zz/.*', 'forward')],
         [],
+        # patterns are matched as prefixes (re.match): no trailing wildcard needed
+        [(r'dtn://a/b', 'delete'), (r'dtn://a/', 'forward'), (r'dtn://q', 'deliver')],
     ]
-    dests = ['dtn://a/b', 'dtn://a/c', 'dtn://q/', 'dtn://me/', 'dtn://zz/k']
+    dests = ['dtn://a/b', 'dtn://a/c', 'dtn://q/', 'dtn://me/', 'dtn://zz/k', 'dtn://a/bcd/e', 'dtn://q/long/er']
     for ti, table in enumerate(tables):
         for dest in dests:
             stats['evaluations'] += 1
@@ -390,13 +392,16 @@ def c19(fails, stats, tier):
     for oname, o in outcomes.items():
         for sub in combos:
             for with_time in ((False, True) if tier == 'thorough' or len(sub) in (1, 4) else (False,)):
-                for report_to in ('dtn://r/', 'dtn:none'):
+                # (subject creation time 0: a source without a clock -- the subject is identified by [0, seqno] then)
+                dtns = (1000, 0) if tier == 'thorough' or len(sub) in (1, 4) else (1000,)
+                for report_to, dtn in [(r, d) for r in ('dtn://r/', 'dtn:none') for d in dtns]:
                     stats['evaluations'] += 1
                     flags = sum(REQ[k] for k in sub) | (int(F.REQ_STATUS_TIME) if with_time else 0)
-                    case = {'scenario': oname, 'requested': list(sub), 'status_time': with_time, 'report_to': report_to}
+                    case = {'scenario': oname, 'requested': list(sub), 'status_time': with_time, 'report_to': report_to,
+                            'subject_creation_time': dtn}
                     ag, sent, fin = new_agent(o['routes'], mtu=o['mtu'])
                     try:
-                        feed(ag, mk(dest=o['dest'], flags=flags, report_to=report_to, plen=o['plen']))
+                        feed(ag, mk(dest=o['dest'], flags=flags, report_to=report_to, plen=o['plen'], dtn=dtn))
                     except Exception as e:  # noqa
                         fails.append({'check': 'S-exception', 'case': case, 'got': '%s: %s' % (type(e).__name__, e)})
                         continue
@@ -421,7 +426,7 @@ def c19(fails, stats, tier):
                         fails.append({'check': 'S-assertions', 'case': case, 'asserted': sorted(asserted), 'expected': sorted(want)})
                         continue
                     if b.primary.destination != report_to or rep.subj_source != 'dtn://s/' or \
-                            rep.subj_ts.getfieldval('dtntime') != 1000 or rep.subj_ts.seqno != 7:
+                            rep.subj_ts.getfieldval('dtntime') != dtn or rep.subj_ts.seqno != 7:
                         fails.append({'check': 'S-addressing-or-subject', 'case': case, 'dest': b.primary.destination})
                         continue
                     # the encoded item, not the attribute view (which shows DTN time 0 as None)
